@@ -78,6 +78,8 @@ def part_len(E, p):
         return BV(len(p[1]))
     if k == 'dec':
         return E_declen(p[1])
+    if k == 'cut':
+        return BV(0)
     raise Unsupported('part ' + k)
 
 
